@@ -1,6 +1,7 @@
 """C16 Scaled and structured assets."""
 from ..comp import scaled as SC
 from ..comp import scalebuild as SB
+from ..comp import c16gen as G16
 
 ID = 'C16'
 THEOREMS = SC.THEOREMS + [
@@ -11,9 +12,13 @@ PARTIAL = [SC.PARTIAL[0].replace('the per-builder identification of "right-hand 
 COMPONENTS = SC.COMPONENTS
 RULE = ('scaled assets over captured real base problems (SimpleContract, Contract with takes, Storage 1|2 nodes, Transport, ExtendedTransport, MultiCommodity, Plant, OrderBook incl. orders outside the horizon) and structured assets over captured inner portfolios; the scaled asset with an own window (start / end / both; inside, straddling, covering, outside the horizon) in 45% of the scaled cases, over bases with and without a window of their own; oracles: fixed scale = base with all capacities * s/norm on the window of the base intersected with the own window of the scaled asset, minus fixed costs over the own window of the scaled asset, free scale >= every fixed scale and = the reported scale, structured vs flat portfolio (value, external dispatch); '
         'the objects of every case built in a way drawn from the seed - one shared Node object per name / a fresh Node(name) at every use (every asset, inner asset and the structured asset\'s own nodes) / the whole portfolio sent through to_json + load_from_json / inner portfolio and base made of deep copies - the correspondence and the oracles unchanged (nodes are identified by name), the references (flat portfolio, rescaled base) built with shared nodes; '
+        'stream freeobl (comp/c16gen.py): a FREE scale (min_scale < max_scale) over base assets with an OBLIGATION - contracts that must take (min_cap > 0) or must deliver (max_cap < 0), scalar / profile / interval capacities, min_take > 0 and max_take < 0 over the horizon, storages that have to end fuller or emptier than they start or have an inflow they cannot keep, transports and multi-commodity contracts with a forced flow, the same behind a line inside a structured asset - next to wide markets, with the degenerate cost settings: fix_costs exactly 0 (float, int), next to nothing, negative, positive, with own windows / wacc, min_scale 0 or positive; oracle: every scale of a scan of [min_scale, max_scale] (5-7 points, both end points) fixed = base with all capacities * s/norm less fixed costs, and the free optimum is no worse than the best of that scan taken on the rescaled BASE and equals the rescaled base at the reported scale, which lies in the range; '
+        'stream tzwin (comp/c16gen.py): zone-aware grids (8 zones, with and without a daylight-saving switch inside); the window of the structured asset (of the scaled asset) and the own windows of the wrapped assets (of the base, of the assets inside a structured base) given as zone-AWARE dates written in DIFFERENT zones (UTC, the zone of the grid, zones up to +11 h / -8 h away, a half-hour offset; 12% of the cases all in one zone), the wrapped boundaries within 3 steps of the wrapper\'s, on and between grid points, so that order in time and order of the wall-clock readings differ; the flat reference (the rescaled base) carries the windows intersected by hand BY INSTANT (later start, earlier end as points in time, written in UTC); oracles unchanged: structured vs flat (optimal value, solutions transported both ways, problem vectors / rows / dispatch rows at the outer nodes), fixed and free scale; '
         'non-trivial = oracle compared a solved pair; distinct by case hash')
-ASSUMPTIONS = ['values compared with tolerance 2e-6 relative']
-EXPLANATION = 'theorems about the models of ScaledAsset / StructuredAsset on arbitrary base problems; correspondence on captured real base problems; equivalent-portfolio oracles on the real code; both on objects built with shared Node objects, with a Node object per use, re-loaded from JSON or deep-copied (the models know nodes by name only)'
+ASSUMPTIONS = ['values compared with tolerance 2e-6 relative',
+               'free scale: the best over the allowed range is evaluated on a scan of 4-7 fixed scales including both end points plus the reported scale (the value is concave in the scale for LP bases, so the scan bounds the best from below and the reported scale attains it)',
+               'zone-aware window dates are compared as points in time; naive and zone-aware dates are not mixed within one wrapper (the package raises TypeError on the comparison)']
+EXPLANATION = 'theorems about the models of ScaledAsset / StructuredAsset on arbitrary base problems; correspondence on captured real base problems; equivalent-portfolio oracles on the real code; both on objects built with shared Node objects, with a Node object per use, re-loaded from JSON or deep-copied (the models know nodes by name only); free scales over bases with obligations and degenerate fixed costs; windows as zone-aware dates of different zones against references intersected by instant'
 
 
 def scenarios(seed, tier):
@@ -24,6 +29,15 @@ def scenarios(seed, tier):
     rnd = random.Random(seed * 104729 + 1616)
     for i in range(160 if tier == 'quick' else 1000):
         yield 'sb%d' % i, {'_stream': 'scalebuild', 'case': SB.gen_case(random.Random(rnd.getrandbits(48)))}
+    # free scale over base assets with obligations, degenerate cost settings (fix_costs exactly 0, tiny, negative): the optimum
+    # against the best over a scan of the allowed range, end points included (comp/c16gen.py, oracles of comp/scaled.py)
+    rnd = random.Random(seed * 104729 + 161616)
+    for i in range(120 if tier == 'quick' else 800):
+        yield 'fo%d' % i, G16.gen_case(random.Random(rnd.getrandbits(48)), 'freeobl')
+    # windows of a wrapper and of what it wraps as zone-aware dates of different zones, on zone-aware grids: against the flat
+    # portfolio (the rescaled base) with the windows intersected by instant
+    for i in range(160 if tier == 'quick' else 1000):
+        yield 'tz%d' % i, G16.gen_case(random.Random(rnd.getrandbits(48)), 'tzwin')
 
 
 def run_case(case, drv):
@@ -33,6 +47,8 @@ def run_case(case, drv):
         r['features'] = ['stream:scalebuild'] + list(r.get('features', []))
         return r
     r = SC.run_case(case, drv)
+    if case.get('stream'):
+        r['features'] = list(r.get('features', [])) + G16.features(case, r)
     # the cost vector alone (costs_only, used for cost samples) is the cost vector of the full set-up - the scale variable's
     # fixed costs included
     try:
